@@ -51,19 +51,41 @@ def configs(t):
     return q + th
 
 
+# the same monitor over worlds with process activity: instances lost while their processes are stopping / starting
+from ..drivers.jobs import Jobs
+
+
+class LossJobs(Jobs):
+    name = 'lossjobs'
+
+
+JDRIVER = LossJobs('C07', ['C07'])
+
+
+def job_configs(t):
+    from . import c09, c05
+    out = [dict(c, name='jobs-' + c['name']) for c in c09.configs('quick') if 'loss-while-stopping' in c['name']]
+    out += [dict(c, name='jobs-' + c['name'], strategy=c['strategy']) for c in c05.configs('quick')
+            if c['name'] == 'duplicate-INFANTICIDE-loss-while-stopping']
+    return out
+
+
 def main():
     t = tier()
     cfgs = configs(t)
     cap = int(os.environ.get('VERIF_CAP_S', '0')) or (None if t == 'quick' else 2400)
-    for c in cfgs:
+    jcfgs = job_configs(t)
+    for c in cfgs + jcfgs:
         c['max_seconds'] = cap
     out, complete = run_e1(
-        'C07', [(DRIVER, cfgs, kwargs_of('none'))],
+        'C07', [(DRIVER, cfgs, kwargs_of('none')),
+                (JDRIVER, jcfgs, lambda c: {'deviations': c['D'], 'closure': 'none', 'max_seconds': c.get('max_seconds')})],
         rule='explicit-state exploration of N real Supvisors cores under crashes, restarts (also quicker than the '
              'detection delay), isolations/rejoins and directed stalls at every point of the tick phase, for '
              'inactivity_ticks in {2,3} and both auto_fence settings; a monitor per (observer, peer) counts observer-local '
              'ticks since the last received peer tick and judges accuracy, completeness, invalidation, FATAL marking of '
-             'lost processes, the fencing rule and every instance-state edge',
+             'lost processes, the fencing rule and every instance-state edge; the same monitor over job worlds in which an instance '
+             'is lost while its processes are STOPPING (stop sequences, conciliation)',
         assumptions=['accuracy is judged only while the trace satisfies the premise of the statement (a peer tick within '
                      'every window of inactivity_ticks consecutive local ticks, no restart, no failed RPC since the '
                      'handshake started)',
@@ -73,4 +95,4 @@ def main():
 
 
 def replay(payload):
-    return replay_e1(payload, {'cluster': DRIVER})
+    return replay_e1(payload, {'cluster': DRIVER, 'lossjobs': JDRIVER})
